@@ -417,6 +417,23 @@ def extract(repo):
     jf = [n.value for n in ast.walk(find_func(dbc, '_SO_createJoinTableSQL')) if isinstance(n, ast.Constant) and isinstance(n.value, str)]
     expect(jf == ['CREATE TABLE %s (\n%s %s,\n%s %s\n)'], '_SO_createJoinTableSQL format: %r' % (jf,))
 
+    # ---- which side of a RelatedJoin creates / drops the link table
+    so_cls = find_class(parse(repo, 'sqlobject/main.py'), 'SQLObject')
+
+    def link_key(fname):
+        fn = find_func(so_cls, fname)
+        found = []
+        for node in ast.walk(fn):
+            if isinstance(node, ast.If) and len(node.body) == 1 and isinstance(node.body[0], ast.Continue):
+                m4 = re.fullmatch(r'join\.soClass\.([\w.]+) > join\.otherClass\.([\w.]+)', ast.unparse(node.test))
+                if m4:
+                    found.append((m4.group(1), m4.group(2)))
+        expect(len(found) == 1 and found[0][0] == found[0][1], 'ownership test of %s: %r' % (fname, found))
+        key = {'__name__': '.className', 'sqlmeta.table': '.tableName'}.get(found[0][0])
+        expect(key, 'ownership test of %s compares %s' % (fname, found[0][0]))
+        return key
+    link_create, link_drop = link_key('_getJoinsToCreate'), link_key('dropJoinTables')
+
     def pair(a, b):
         return '(%s, %s)' % (L(a), L(b))
 
@@ -442,6 +459,10 @@ def extract(repo):
     out.append('def fkAction : Cascade → Str')
     for name, v in zip(['none', 'cascade', 'restrict', 'setNull'], act):
         out.append('  | .%s => %s' % (name, L(v)))
+    out.append('')
+    out.append('/-- what `_getJoinsToCreate` / `dropJoinTables` compare to pick the side that owns a link table -/')
+    out.append('def linkCreateKey : LinkKey := %s' % link_create)
+    out.append('def linkDropKey : LinkKey := %s' % link_drop)
     out.append('')
     out.append('/-- which `sqlrepr` dialect renders the values of an EnumCol -/')
     out.append('def enumLit : Dialect → LitDb')
